@@ -1,0 +1,19 @@
+//go:build verif
+
+package newick
+
+// Property-level theorems for /verif/govc, written as client programs of the
+// contracted functions. Never called; verified modularly.
+
+//@ theorem C05.bareNameInverse
+//@   props C05
+//@   requires forall k int :: 0 <= k && k < len(s) ==> !nwQ(s[k])
+// A name without special bytes survives nameToText -> nameFromText, whatever
+// other bytes (including spaces) it contains.
+func thmBareNameInverse(s string) {
+	t := nameToText(s)
+	u := nameFromText(t)
+	//@ assert len(u) == len(s)
+	//@ assert forall k int :: 0 <= k && k < len(s) ==> u[k] == s[k]
+	_ = u
+}
